@@ -21,15 +21,15 @@ checks = {
  "C09": ("model_checking", "stateless DFS over all schedules of the real goroutines under a controlled scheduler (testing/synctest + AST-instrumented sync/channel/go sites + runtime select/map patches), iterative preemption bounding; linearizability of every schedule's history checked with porcupine; free-running -race pass",
          "Every schedule within the preemption bound of 11 small scenarios on the real stores (with their background goroutines) is executed; each must finish, not panic, and be linearizable w.r.t. the store model including a final listing.", "Trusted: DRF atomicity between scheduling points (guarded by the -race pass), synctest, two runtime patches, porcupine.", "3.C09"),
  "C10": ("exploration", "bounded-exhaustive enumeration of store histories with close/reopen at every position, file store vs model",
-         "All sequences over the C07 alphabet plus reopen and retention-scan, reopen allowed at every position any number of times; reopen must be the identity on the model with concrete ids.", "Trusted: restart is modelled as constructing a new file.Store on the same directory.", "3.C10"),
+         "All sequences over the C07 alphabet plus reopen (a new process: the id counter restarts), retention-scan and a delivery whose source fails half way, reopen allowed at every position any number of times; reopen must be the identity on the model with concrete ids.", "Trusted: restart is modelled as constructing a new file.Store on the same directory.", "3.C10"),
  "C11": ("fault_enumeration", "exhaustive crash-point enumeration: real syscalls of the real file-store write path recorded with strace; every syscall prefix, every byte-torn index write and every unlink subset materialised as a directory image and recovered with the real store",
-         "For every bounded history the last operation's recorded file-system effects are cut at every point (syscall granularity, byte granularity inside index writes, all subsets of RemoveAll's sibling unlinks); each image is recovered by a fresh real store and checked for readability, integrity of untouched data, atomicity of the interrupted operation and acceptance of new mail.", "Trusted: process-death fault model (no fsync in the store, no power-loss reordering); strace's log; unknown mutating syscalls fail the check loudly.", "3.C11"),
+         "For every bounded history the last operation's recorded file-system effects are cut at every point (syscall granularity, byte granularity inside index writes, all subsets of RemoveAll's sibling unlinks); each image is recovered by a fresh real store and checked for readability, integrity of untouched data, atomicity of the interrupted operation and acceptance of new mail; then operations continue from the recovered state in two orders (deliver, remove one by one / remove one by one, deliver), each step re-checked through a freshly opened store.", "Trusted: process-death fault model (no fsync in the store, no power-loss reordering); strace's log; unknown mutating syscalls fail the check loudly.", "3.C11"),
  "C12": ("model_checking", "exact-clock exhaustive enumeration of age assignments in synctest bubbles + stateless DFS over all schedules (preemption-bounded, fake-clock ticks and multi-ready selects as explicit events) of the real retention scanner against deliveries, removals and cancellation",
          "Sequential: every age assignment around the cutoff at 1ns resolution; concurrent: every schedule of DoScan/Start/Join against a deliverer, a remover and a canceller on both stores.", "Trusted: fake clock; scheduler assumptions as C09.", "3.C12"),
  "C13": ("exploration", "bounded-exhaustive enumeration of POP3 command sequences with external mutations as events (full tree + explicit-state search), real session code in synctest bubbles vs POP3 snapshot model; every prefix doubles as the dropped-connection case",
-         "All sequences over a 59-element alphabet; STAT/LIST/UIDL/RETR/TOP/DELE/RSET pinned against the login-time snapshot; commit rule checked after every sequence.", "Trusted: AUTHORIZATION-state replies not pinned; synctest; go1.26.8.", "3.C13"),
+         "All sequences over a 59-element alphabet from the greeting, and a second search from a logged-in session (non-initial state) over the TRANSACTION-state alphabet; STAT/LIST/UIDL/RETR/TOP/DELE/RSET pinned against the login-time snapshot; commit rule checked after every sequence.", "Trusted: AUTHORIZATION-state replies not pinned; synctest; go1.26.8.", "3.C13"),
  "C14": ("exploration", "bounded-exhaustive enumeration of API call sequences mixed with deliveries × mailbox names × backend × base path through the real router and the bundled Go client",
-         "Every sequence over a 32-op alphabet; status, body and the store's own state after every call.", "Trusted: percent-encoding client; panics caught at ServeHTTP.", "3.C14"),
+         "Every sequence over a 34-op alphabet (incl. requests whose client resets the connection after the first body byte); status, body and the store's own state after every call.", "Trusted: percent-encoding client; panics caught at ServeHTTP.", "3.C14"),
  "C15": ("model_checking", "bounded-exhaustive hub operation sequences in synctest bubbles vs hub model + stateless DFS over all schedules of hub ∥ dispatcher ∥ healthy listeners ∥ failing/slow/closing real socket listeners",
          "Sequential semantics by exhaustive sequences with the real listeners; failure timing by exhaustive schedules within the preemption bound.", "Trusted: WSWriter replaced by a harness consumer through the verif hook; scheduler assumptions as C09.", "3.C15"),
  "C16": ("model_checking", "bounded-exhaustive histories × limits × backends with events counted at exact quiescence (synctest) + stateless DFS over all schedules of the asynchronous event dispatch with a scheduling point inside the listener body",
